@@ -546,3 +546,94 @@ def gen_adapters(rng, knobs=None):
         prog.append(['pump'])
     prog.append(['finish'])
     return opts, prog
+
+
+def gen_tlc(rng, knobs=None):
+    """schedules proposed by the specification: behaviours of the design model RSocketMC.tla produced by `tlc -simulate` are
+    projected onto driver primitives (knobs: file = JSON list of {kind, init, haspub, lib, actions:[[name, args...]...]}).
+    The sender gate is closed, so SenderStep is the driver letting exactly one frame through and Deliver feeds exactly one
+    frame; whether the loop runs between two primitives is varied, which adds the callback-order races of the real loop."""
+    import json
+    k = dict(knobs or {})
+    with open(k['file']) as f:
+        behaviours = json.load(f)
+    b = behaviours[rng.randrange(len(behaviours))]
+    kind, R = b['kind'], b['init']
+    P = 's' if R == 'c' else 'c'
+    opts = {'mode': rng.choice(['tcp', 'tcp', 'msg']), 'frag': None, 'read_buffer': rng.choice([1, 7, 1024])}
+    prog = [['start'], ['pump'], ['gate_close', 'c'], ['gate_close', 's']]
+    ep_of = {'req': R, 'resp': P}
+    p_settle = rng.choice([1.0, 0.7, 0.4])
+
+    def maybe_settle():
+        return rng.random() < p_settle
+
+    lib_items = b.get('max_elems', 2)
+    actions = [list(a) for a in b['actions']]
+    # The model's Deliver is atomic (frame taken from the link and handled).  In the real loop the bytes are fed first and the
+    # receiver task handles them when it is scheduled.  The model order  FutCancel ... Deliver(requester) ... FutCancelCallback
+    # (a response is handled while the cancelled future's done-callback is still pending) is therefore realised by feeding the
+    # response BEFORE future.cancel() is called and only then running the loop: receiver first, done-callback second.
+    i = 0
+    reordered = []
+    while i < len(actions):
+        a = actions[i]
+        if a[0] == 'FutCancel':
+            j = next((k for k in range(i + 1, len(actions)) if actions[k][0] == 'FutCancelCallback'), None)
+            if j is not None:
+                mid = actions[i + 1:j]
+                hit = next((k for k, x in enumerate(mid) if x[0] == 'Deliver' and x[1] == R), None)
+                if hit is not None and rng.random() < 0.7:
+                    reordered += mid[:hit] + [['FeedNoSettle', R], ['FutCancel'], ['FutCancelCallback']] + mid[hit + 1:]
+                    i = j + 1
+                    continue
+        reordered.append(a)
+        i += 1
+    for act in reordered:
+        name, args = act[0], act[1:]
+        if name == 'FeedNoSettle':
+            prog.append(['deliver_frame', 's' if args[0] == 'c' else 'c', False])
+            continue
+        if name == 'AppOpen':
+            n0 = args[0]
+            sp = spec(rng, big=False)
+            if kind == 'rr':
+                prog.append(['rr', R, sp, {'mode': 'later'}])
+            elif kind == 'stream':
+                pol = {'src': 'generator', 'items': items(rng, lib_items, big=False), 'complete_on_last': True} if b.get('lib') else {'src': 'scripted'}
+                prog.append(['stream', R, sp, n0, pol, True])
+            else:
+                src = {'src': 'generator', 'items': items(rng, lib_items, big=False), 'complete_on_last': True} if b.get('lib') else {'src': 'scripted'}
+                pol = dict(src, pub=True, sub=True)
+                prog.append(['channel', R, sp, n0, pol, bool(b.get('haspub')), dict(src) if b.get('haspub') else None, True])
+        elif name == 'SenderStep':
+            prog.append(['gate', args[0], 1])
+        elif name == 'Deliver':
+            src = 's' if args[0] == 'c' else 'c'
+            prog.append(['deliver_frame', src, maybe_settle()])
+        elif name == 'Respond':
+            prog.append(['respond_error', 0] if args[0] else ['respond', 0, spec(rng, big=False)])
+            if maybe_settle():
+                prog.append(['settle'])
+        elif name == 'PubNext':
+            if not b.get('lib'):
+                sp = spec(rng, big=False)
+                prog.append(['emit', 0, args[0], sp[0], sp[1], 1 if args[1] else 0])
+            else:
+                prog.append(['settle'])
+        elif name == 'PubComplete':
+            prog.append(['complete', 0, args[0]])
+        elif name == 'PubError':
+            prog.append(['error', 0, args[0]])
+        elif name == 'SubCancel':
+            prog.append(['cancel', 0, args[0]])
+        elif name == 'SubRequestN':
+            prog.append(['request_n', 0, args[0], args[1]])
+        elif name == 'FutCancel':
+            prog.append(['fut_cancel', 0, False])
+        elif name == 'FutCancelCallback':
+            prog.append(['settle'])
+        elif name == 'Quiesce':
+            pass
+    prog.append(['finish'])
+    return opts, prog
